@@ -16,7 +16,7 @@
 From Coq Require Import NArith ZArith List Bool Arith Lia.
 From Snap.Array Require Import ArrayDefs.
 From Snap.Array Require Import SyncProofsDefs.
-From Snap.Fix Require Import FixModel RepairProofs StripeProofs.
+From Snap.Fix Require Import FixModel RepairProofs StripeProofs Examples.
 Import ListNotations.
 
 (* 1. repair_step (strategy with hashes) tries the parity combinations in order, rejects every combination that contains
@@ -119,3 +119,15 @@ Theorem C01_fix_then_check_quiet :
     r_tags s'' = [] /\ r_err s'' = 0 /\ r_unrec s'' = 0 /\ r_fs s'' = r_fs s' /\ r_par s'' = r_par s'.
 Proof. exact fix_then_check_quiet. Qed.
 Print Assumptions C01_fix_then_check_quiet.
+
+(* Non-vacuity: a stripe of two data disks and two parity levels with the file of disk 0 missing and level 1 overwritten
+   satisfies every hypothesis of C01_fix_step_restores (Fix/Examples.v proves them one by one and applies the theorem) *)
+Example C01_example_fix_restores :
+  let s' := stripe_step x_hashf x_padz x_truncf x_bs 2 false x_newino 999 x_fix x_c x_fs x_s 0 in
+  (forall j f idx b, slot_of x_c 0 j = SFile f idx b ->
+     exists g, fs_find (r_fs s') j (cf_name f) = Some g /\ nth idx (ff_blocks g) 0%N = vnth x_v j
+               /\ (N.of_nat idx * x_bs + block_len x_bs (cf_size f) idx <= ff_size g)%N /\ (ff_size g <= cf_size f)%N)
+  /\ (forall l, l < 2 -> par_matches x_v (prow (r_par s') 0 l) = true)
+  /\ r_unrec s' = r_unrec x_s /\ keeps_damaged x_s s' /\ length (r_fs s') = length (r_fs x_s).
+Proof. exact x_fix_restores. Qed.
+Print Assumptions C01_example_fix_restores.
